@@ -69,6 +69,10 @@ PURE_FUNCTIONS = {
     "exp", "sqrt", "log", "pow", "abs", "fabs", "min", "max", "floor", "ceil", "static_cast", "isnan",
     "isinf", "isfinite", "sizeof", "const_cast", "reinterpret_cast", "dynamic_cast", "make_pair",
     "back_inserter",
+    # OpenMP queries: read ICVs / the team of the calling thread, touch no program memory (what their VALUE is used
+    # for is the business of the distribution descriptor, dist_of_manual)
+    "omp_get_thread_num", "omp_get_num_threads", "omp_get_max_threads", "omp_in_parallel", "omp_get_level",
+    "omp_get_num_procs", "omp_get_thread_limit",
 }
 MUTATES_ARGS = {"centerMatrix"}     # free functions that modify their (first) argument in place
 ITER_MUTATORS = {
@@ -423,6 +427,8 @@ class Region:
         self.loops = []          # [{"iv", "lo", "hi", "cmp"}] of the work-shared loops
         self.func = ""
         self.file = ""
+        self.dist = ["DUnknown"]     # who runs the iterations (Par_Team_Model.dist)
+        self.dist_what = ""
 
 
 def is_intlit(t):
@@ -1130,6 +1136,110 @@ def find_hlle(body_stmt):
 
 
 # ----------------------------------------------------------------------------- regions of a file
+
+# ----------------------------------------------------------------------------- distribution of the iterations (wave 3)
+OMP_QUERIES = ("omp_get_num_threads", "omp_get_max_threads", "omp_get_thread_num", "omp_get_thread_limit",
+               "omp_get_num_procs", "omp_get_team_size", "omp_get_ancestor_thread_num")
+
+
+def manual_header(hdr):
+    """(var, lo, hi, cmp, step tokens) of  for (v = LO; v < HI; v += STEP)  /  v = v + STEP, else None"""
+    if len(hdr) != 3:
+        return None
+    init, cond, inc = hdr
+    var = lo = None
+    d = decl_names(init) if init else None
+    if d is not None and len(d) == 1 and d[0][1] and d[0][1][0].s == "=":
+        var, lo = d[0][0], d[0][1][1:]
+    elif len(init) >= 3 and init[0].k == "id" and init[1].s == "=":
+        var, lo = init[0].s, init[2:]
+    if var is None or len(cond) < 3 or cond[0].s != var or cond[1].s not in ("<", "<=", "!="):
+        return None
+    step = None
+    if len(inc) >= 3 and inc[0].s == var and inc[1].s == "+=":
+        step = inc[2:]
+    elif len(inc) >= 5 and inc[0].s == var and inc[1].s == "=" and inc[2].s == var and inc[3].s == "+":
+        step = inc[4:]
+    if step is None:
+        return None
+    return var, lo, cond[2:], cond[1].s, step
+
+
+def _only_call(toks, fname):
+    """toks is (casts / parentheses around) a single call fname()"""
+    ids = [t.s for t in toks if t.k == "id"]
+    calls = [x for x in ids if x in OMP_QUERIES]
+    other = [x for x in ids if x not in OMP_QUERIES and x not in TYPE_KEYWORDS and x not in
+             ("static_cast", "IndexType", "size_t", "std", "ptrdiff_t", "Index")]
+    ops = [t.s for t in toks if t.k not in ("id", "num") and t.s not in ("(", ")", "<", ">", "::")]
+    return calls == [fname] and not other and not ops and not any(t.k == "num" for t in toks)
+
+
+def value_source(toks, inside_decls, outside_toks, assigned):
+    """where the value of the expression `toks` (evaluated inside the region) comes from:
+    ("call", fname, inside?) | ("const", c) | ("unknown", why)"""
+    toks = strip_parens(list(toks))
+    for q in OMP_QUERIES:
+        if _only_call(toks, q):
+            return ("call", q, True)
+    if len(toks) == 1 and is_intlit(toks[0]):
+        return ("const", int(re.sub(r"[uUlL]+$", "", toks[0].s)))
+    if len(toks) == 1 and toks[0].k == "id":
+        name = toks[0].s
+        if name in assigned:
+            return ("unknown", "`%s` is assigned in the region" % name)
+        if name in inside_decls:
+            init = inside_decls[name]
+            if init and init[0].s == "=":
+                init = init[1:]
+            src = value_source(init, {}, outside_toks, assigned)
+            return src
+        # declared before the region: the last  `name = ...;` / `TYPE name = ...;`  before the pragma
+        last = None
+        i = 0
+        n = len(outside_toks)
+        while i < n:
+            if outside_toks[i].s == name and i + 1 < n and outside_toks[i + 1].s == "=" and \
+                    (i == 0 or outside_toks[i - 1].s not in (".", "->", "::")):
+                j = i + 2
+                depth = 0
+                while j < n and not (outside_toks[j].s in (";", ",") and depth == 0):
+                    if outside_toks[j].s in OPEN:
+                        depth += 1
+                    elif outside_toks[j].s in (")", "]", "}"):
+                        depth -= 1
+                    j += 1
+                last = outside_toks[i + 2:j]
+                i = j
+            else:
+                i += 1
+        if last is None:
+            return ("unknown", "`%s`: no initialiser found before the region" % name)
+        src = value_source(last, {}, [], assigned)
+        if src[0] == "call":
+            return ("call", src[1], False)
+        return src
+    return ("unknown", "expression `%s`" % S(toks))
+
+
+def dist_of_manual(lo, step, inside_decls, outside_toks, assigned):
+    f = value_source(lo, inside_decls, outside_toks, assigned)
+    st = value_source(step, inside_decls, outside_toks, assigned)
+    first = "FirstTid" if (f[0] == "call" and f[1] == "omp_get_thread_num" and f[2]) else "FirstOther"
+    if st[0] == "call" and st[1] == "omp_get_num_threads":
+        step_src = ["SrcTeam"] if st[2] else ["SrcOutside"]
+    elif st[0] == "call" and st[1] == "omp_get_max_threads":
+        step_src = ["SrcMaxThreads"]
+    elif st[0] == "const":
+        step_src = ["SrcConst", st[1]]
+    else:
+        step_src = ["SrcUnknown"]
+    what = "hand-made schedule: first iteration from %s, stride from %s" % (
+        "%s()%s" % (f[1], "" if f[2] else " evaluated before the region") if f[0] == "call" else str(f[1]),
+        "%s()%s" % (st[1], " inside the region" if st[2] else " evaluated BEFORE the region") if st[0] == "call" else str(st[1]))
+    return ["DCyclic", first, step_src], what
+
+
 def function_context(toks, p):
     """for the pragma at toks[p]: (function name, parameter names, names declared in the function
     before p)"""
@@ -1195,7 +1305,7 @@ def function_context(toks, p):
                     declared += [n for n, _ in d]
         start = t.s in (";", "{", "}") or t.k == "pragma"
         q += 1
-    return fname, params, declared
+    return fname, params, declared, fbrace
 
 
 def analyse_file(path, rel, macros, variant):
@@ -1207,9 +1317,14 @@ def analyse_file(path, rel, macros, variant):
     p = 0
     while p < len(toks):
         t = toks[p]
-        if t.k == "pragma" and t.s.split()[1:3] == ["omp", "parallel"]:
+        orphan = t.k == "pragma" and t.s.split()[1:2] == ["omp"] and \
+            t.s.split()[2:3] and re.match(r"(for|sections|single|taskloop)\b", t.s.split()[2]) is not None
+        if (t.k == "pragma" and t.s.split()[1:3] == ["omp", "parallel"]) or orphan:
             words = t.s.split()
-            fname, params, declared = function_context(toks, p)
+            if orphan:
+                # analysed like `omp parallel for` (the footprints are the loop's), but nobody creates a team for it
+                words = words[:2] + ["parallel"] + words[2:]
+            fname, params, declared, fbrace = function_context(toks, p)
             counts[fname] = counts.get(fname, 0) + 1
             name = "%s:%s#%d%s" % (rel, fname, counts[fname], variant)
             reg = Region(name, t.line)
@@ -1217,6 +1332,8 @@ def analyse_file(path, rel, macros, variant):
             clause_private = []
             combined = "for" in words[3:4]
             directive = t.s[len("#pragma "):]
+            if orphan:
+                directive = "omp parallel " + directive[len("omp "):]
             par_clauses = parse_clauses(directive, 3 if combined else 2)
             bad_clauses = []
 
@@ -1251,6 +1368,74 @@ def analyse_file(path, rel, macros, variant):
                         pre.append(st)
                     else:
                         pre.append(st)
+            manual = None
+            if orphan:
+                reg.dist = ["DWorkshare", False]
+                reg.dist_what = ("orphaned `omp %s`: not inside an `omp parallel` of %s(); it binds to the team of the "
+                                 "CALLER's parallel region" % (" ".join(words[3:4]), fname))
+            elif loops:
+                reg.dist = ["DWorkshare", True]
+                reg.dist_what = "worksharing loop inside the parallel region"
+            elif not combined:
+                # no worksharing construct: a hand-made schedule  for (v = first; v < n; v += step)  at the top level
+                # of the region is analysed as the work-shared loop, with the distribution the code computes
+                inside_decls = {}
+                for st in body[1]:
+                    if st[0] == "simple":
+                        d = decl_names(st[1])
+                        if d is not None:
+                            for n_, rest in d:
+                                inside_decls[n_] = rest
+                for z, st in enumerate(body[1]):
+                    if st[0] == "for":
+                        mh = manual_header(st[1])
+                        if mh is not None:
+                            manual = mh
+                            loops = [st]
+                            pre = [x for x in pre if x is not st]
+                            for later in body[1][z + 1:]:
+                                if later[0] == "for" and manual_header(later[1]) is not None:
+                                    loops.append(later)
+                                    pre = [x for x in pre if x is not later]
+                            break
+                if manual is not None:
+                    assigned = set()
+                    flat_toks = []
+
+                    def _collect(st_):
+                        if st_[0] == "block":
+                            for x in st_[1]:
+                                _collect(x)
+                        elif st_[0] == "simple":
+                            flat_toks.append(st_[1])
+                        elif st_[0] == "for":
+                            flat_toks.extend(st_[1])
+                            _collect(st_[2])
+                        elif st_[0] in ("while",):
+                            _collect(st_[2])
+                        elif st_[0] == "if":
+                            _collect(st_[2])
+                            if st_[3] is not None:
+                                _collect(st_[3])
+                        elif st_[0] in ("crit",):
+                            _collect(st_[1])
+                        elif st_[0] == "ompfor":
+                            _collect(st_[2])
+                    _collect(body)
+                    for tl in flat_toks:
+                        if decl_names(tl) is not None:
+                            continue
+                        for z2, tk in enumerate(tl):
+                            if tk.k == "id" and z2 + 1 < len(tl) and tl[z2 + 1].s in ASSIGN_OPS | {"++", "--"} and \
+                                    (z2 == 0 or tl[z2 - 1].s not in (".", "->", "::")) and tk.s != manual[0]:
+                                assigned.add(tk.s)
+                            if tk.s in ("++", "--") and z2 + 1 < len(tl) and tl[z2 + 1].k == "id" and tl[z2 + 1].s != manual[0]:
+                                assigned.add(tl[z2 + 1].s)
+                    reg.dist, reg.dist_what = dist_of_manual(manual[1], manual[4], inside_decls,
+                                                             toks[fbrace + 1:p], assigned)
+                    priv = [x for x in priv if x != manual[0]]
+                    inside_private = [n_ for n_ in inside_decls if n_ not in priv and n_ != manual[0]]
+                    priv += [x for x in inside_private]
             priv = list(dict.fromkeys(priv + [x for x in clause_private if x not in priv]))
             shared -= set(priv)
             an = Analyzer(reg, shared, priv)
@@ -1287,13 +1472,19 @@ def analyse_file(path, rel, macros, variant):
                 if lp[0] != "for":
                     an.access("<region>", True, "AOpaque", line=t.line, what="omp for without a for loop")
                     continue
-                var, lo, hi, cmp_, declared_iv = an.for_header(lp[1])
+                if manual is not None:
+                    mh = manual_header(lp[1])
+                    var, lo, hi, cmp_, declared_iv = mh[0], mh[1], mh[2], mh[3], False
+                    an.scan(mh[4])
+                else:
+                    var, lo, hi, cmp_, declared_iv = an.for_header(lp[1])
                 if var is None or cmp_ is None:
                     an.access("<region>", True, "AOpaque", line=lp[3], what="non-canonical omp for header")
                     continue
                 an.iv = var
                 reg.iv = var
-                reg.loops.append({"iv": var, "lo": S(lo or []), "hi": S(hi or []), "cmp": cmp_})
+                reg.loops.append({"iv": var, "lo": S(lo or []), "hi": S(hi or []), "cmp": cmp_,
+                                  "step": S(manual[4]) if manual is not None else "1"})
                 an.locals.discard(var)
                 if var in an.priv:
                     an.priv.remove(var)
@@ -1376,7 +1567,7 @@ def translate(repo):
                     "write_forms": [json.loads(x) for x in wf], "access_forms": [json.loads(x) for x in af],
                     "file": r.file, "func": r.func, "if": r.if_clause, "if_atoms": cond_atoms(r.if_clause),
                     "if_thresholds": cond_thresholds(r.if_clause), "clauses": [list(c) for c in r.clauses],
-                    "loops": r.loops})
+                    "loops": r.loops, "dist": r.dist, "dist_what": r.dist_what})
     return {"regions": out, "hlle": hlle}
 
 
@@ -1409,12 +1600,21 @@ def coq_bool(b):
     return "true" if b else "false"
 
 
+def coq_dist(d):
+    if d[0] == "DWorkshare":
+        return "DWorkshare %s" % coq_bool(d[1])
+    if d[0] == "DCyclic":
+        st = d[2]
+        return "DCyclic %s %s" % (d[1], "(SrcConst %d)" % st[1] if st[0] == "SrcConst" else st[0])
+    return "DUnknown"
+
+
 def to_coq(tr):
     L = ["(* GENERATED by translate/t_omp.py from the C++ working tree -- do not edit.",
          "   Region descriptors of property C15: see Par_Region_Model.v for their meaning. *)",
          "From Coq Require Import ZArith List String.",
          "Import ListNotations.",
-         "From TK Require Import Par_Region_Model.",
+         "From TK Require Import Par_Region_Model Par_Team_Model.",
          "Local Open Scope string_scope.",
          "Local Open Scope Z_scope.",
          ""]
@@ -1448,6 +1648,17 @@ def to_coq(tr):
         L.append("")
     L.append("Definition regions : list region :=\n  [" + "; ".join(names) + "].")
     L.append("")
+    # wave 3: who runs the iterations of each region (Par_Team_Model.dist), in the order of `regions`
+    ds = []
+    for r in tr["regions"]:
+        ds.append("   (\"%s\", %s)   (* %s *)" % (r["name"], coq_dist(r.get("dist") or ["DUnknown"]),
+                                               (r.get("dist_what") or "").replace("*)", "* )").replace("(*", "( *")))
+    body = []
+    for z, d_ in enumerate(ds):
+        code, cm = d_.split("   (*", 1)
+        body.append(code + (";" if z + 1 < len(ds) else "") + "   (*" + cm)
+    L.append("Definition dists : list (string * dist) :=\n  [\n" + "\n".join(body) + "\n  ].")
+    L.append("")
     h = tr["hlle"]
     if h:
         ok = all(x[2] for x in h) and all(x[0] == h[0][0] and x[1] == h[0][1] for x in h)
@@ -1478,6 +1689,8 @@ SELF_MUTATIONS = [
     ("include/tapkee/routines/diffusion_maps.hpp", "ScalarType gk = exp(", "note_progress(i_index_iter); ScalarType gk = exp("),
     # a clause the descriptor language does not express
     ("include/tapkee/routines/landmarks.hpp", "#pragma omp for nowait", "#pragma omp for collapse(2) nowait"),
+    # wave 3: the `parallel` of a region lost (orphaned worksharing loop)
+    ("include/tapkee/routines/diffusion_maps.hpp", "#pragma omp parallel\n", "\n"),
     # a new conditional region with a reduction in code without any region
     ("include/tapkee/external/barnes_hut_sne/tsne.hpp", "        for (int n = 0; n < N; n++)\n            tree->computeNonEdgeForces(",
      "#pragma omp parallel for reduction(+ : sum_Q) if (N >= 1000)\n        for (int n = 0; n < N; n++)\n            tree->computeNonEdgeForces("),
